@@ -98,6 +98,9 @@ def run(ck, prog):
         "produced a file-less result, or - for values that carry their own file (FileRange, Diagnostic) - that "
         "very value's file. The two must be the same file class (R09.1); the URI must be path_for_file of the "
         "value's own file (R09.2); and diagnostics are grouped under their own location's file in ide (R09.3). "
+        "Shared with neighbouring properties: R09.4 conversion basis (C10), R09.5 editor text recorded before files are "
+        "re-read (C12), R09.6 to_proto::range converts each endpoint of the analysed span through position() on its own, "
+        "never one endpoint from the other (C10). "
         "Not decided: the numeric exactness of the conversion (C10), concurrent edits.")
     ck.trusted = ["salsa snapshot: line_index(f) is the table of f's text in the analysed revision"]
     ck.rule("R09.1", "line table and converted range belong to the same file")
@@ -198,6 +201,9 @@ def run(ck, prog):
     conversion_basis(ck, prog, "R09.4")
     ck.rule("R09.5", "positions are converted against the text the editor sent: it is in the open-document table before the include walk re-reads files")
     overlay_before_reread(ck, prog, _cg, _sb, _ow, _ri, "R09.5")
+    from .c10 import range_endpoints
+    ck.rule("R09.6", "a range sent to the client has both endpoints converted from the analysed span's own endpoints (shared with C10)")
+    range_endpoints(ck, prog, "R09.6")
 
 
 def same_entry(lc, vc):
